@@ -5,13 +5,14 @@ these and hands it to ctx.require(), which asks the path solver for a countermod
 
 
 def _is_sym(x):
-    return not isinstance(x, bool) and hasattr(x, "var")
+    # NOT isinstance(x, bool): under the tracer CrossHair's isinstance reports a SymbolicBool as bool
+    return not (x is True or x is False) and hasattr(x, "var")
 
 
 def _z(x):
     import z3
 
-    if isinstance(x, bool):
+    if x is True or x is False:
         return z3.BoolVal(x)
     if _is_sym(x):
         return x.var
